@@ -191,7 +191,8 @@ class CCIReader(TypeReaderBase):
                 if cia_name in update_contents:
                     self.cart_region = region
                     break
-        except KeyError:
+        except (KeyError, AttributeError):
+            # no update partition, or it has no RomFS
             pass
 
     def __repr__(self):
